@@ -39,13 +39,69 @@ def client_class(r):
     return "other"
 
 
+def _vm_fields(res):
+    f = {}
+    for part in res.split(";"):
+        if "=" in part:
+            k, v = part.split("=", 1)
+            f[k] = [x for x in v.split(",") if x]
+    return f
+
+
+def vmgr_nontrivial(tok, res):
+    op = tok[0]
+    if op == "xfer":
+        return res in ("ok", "closed")
+    f = _vm_fields(res)
+    if op in ("squat", "free"):
+        return res.startswith("ok") and bool(f.get("cfg"))
+    return bool(f.get("cfg")) or bool(f.get("run"))
+
+
+def vmgr_class(r):
+    if "cfg=" not in r:
+        return r[:10]
+    f = _vm_fields(r)
+    head = r.split(";")[0] if not r.startswith("cfg=") else ""
+    cfgn = {c.split(":")[0] for c in f.get("cfg", [])}
+    runn = {c.split(".")[0] for c in f.get("run", [])}
+    if not cfgn:
+        k = "none-configured"
+    elif cfgn <= runn:
+        k = "all-running"
+    elif runn:
+        k = "some-retrying"
+    else:
+        k = "all-retrying"
+    return (head + "," if head else "") + k
+
+
+def svc_nontrivial(tok, res):
+    if tok[0] == "getcfg":
+        return res == "same"
+    return "ev=" in res and ("ev=-" not in res or ":wait" in res)
+
+
+def svc_class(r):
+    if "ev=" not in r:
+        return r[:10]
+    parts = r.split(";")
+    head = parts[0] if not parts[0].startswith("ev=") else ""
+    ev = [p for p in parts if p.startswith("ev=")][0][3:]
+    st = [p for p in parts if p.startswith("st=")][0][3:]
+    kinds = "".join(sorted({e[0] for sess in ev.split("|") if ":" in sess for e in sess.split(":", 1)[1].split(",")})) if ev != "-" else "-"
+    where = "waiting-on-dead-session" if ":wait" in st else ("none" if st in ("-", "") else "running")
+    return ",".join(x for x in (head, "ev:" + kinds, where) if x)
+
+
 def health_nontrivial(tok, res):
     return tok[0] == "hprobe" and ("F" in res) or tok[0] == "htcp"
 
 
 PROP = {
         "level": "proof",
-        "gens": [],
+        "gens": ["SessFacts"],
+        "extra_targets": ["Frp.Props.C19Visitors", "Frp.Props.C19Reload"],
         "theorems": [
             "Frp.C19.health_consecutive_witness",
             "Frp.C19.health_not_ConsecutiveFull",
@@ -106,6 +162,35 @@ PROP = {
             "Frp.C19.model_UpdHolds",
             "Frp.C19.healthHoldsOn_sound",
             "Frp.C19.fixed_healthHoldsOn",
+            # Part V (visitors, Frp/Props/C19Visitors.lean), Part F (every field) and Part S (re-login), Frp/Props/C19Reload.lean
+            "Frp.C19.vm_inv_init",
+            "Frp.C19.vm_inv_step",
+            "Frp.C19.vm_inv_run",
+            "Frp.C19.vm_update_names",
+            "Frp.C19.vm_update_cfgs_mem",
+            "Frp.C19.vm_kept_same_visitor",
+            "Frp.C19.vm_changed_closed",
+            "Frp.C19.vm_reload_idempotent",
+            "Frp.C19.vm_dup_restart_witness",
+            "Frp.C19.vm_history_configured",
+            "Frp.C19.vm_history_running",
+            "Frp.C19.vm_removed_never_runs",
+            "Frp.C19.vm_changed_runs_new",
+            "Frp.C19.vm_try_starts",
+            "Frp.C19.vm_try_blocked",
+            "Frp.C19.vm_try_others",
+            "Frp.C19.vm_pass_complete",
+            "Frp.C19.model_vHolds",
+            "Frp.C19.model_vSettled",
+            "Frp.C19.reload_changed_restarts",
+            "Frp.C19.reload_unchanged_silent",
+            "Frp.C19.store_run",
+            "Frp.C19.reconnect_runs_last_loaded",
+            "Frp.C19.relogin_registers_last_loaded",
+            "Frp.C19.outage_reload_silent",
+            "Frp.C19.reconnect_code",
+            "Frp.C19.reconnect_early_witness",
+            "Frp.C19.model_sessionRegOK",
         ],
         "engines": [
             {"name": "health", "quick_n": 2200, "thorough_n": 9000, "thorough_seeds": 4,
@@ -113,17 +198,51 @@ PROP = {
              "result_class": lambda r: ("withdrawn" if "F" in r else "up" if "N" in r else "never-up") if set(r) <= set("NF.") else r[:12]},
             {"name": "client", "quick_n": 3000, "thorough_n": 9000, "thorough_seeds": 4,
              "nontrivial": client_nontrivial, "result_class": client_class, "search_seeds": 2, "search_n": 1500},
+            {"name": "vmgr", "quick_n": 2500, "thorough_n": 6000, "thorough_seeds": 4,
+             "nontrivial": vmgr_nontrivial, "result_class": vmgr_class, "search_seeds": 2, "search_n": 1500},
+            {"name": "svc", "quick_n": 280, "thorough_n": 900, "thorough_seeds": 3,
+             "nontrivial": svc_nontrivial, "result_class": svc_class, "search_seeds": 2, "search_n": 280},
         ],
         "rule": "health engine: probe-outcome histories against the real health.Monitor (n = number of probes); non-trivial = "
                 "a history on which the failed callback fired. client engine: reload / tick / reply / health / work-connection "
-                "histories against the real proxy.Manager and its Wrappers; non-trivial = the op produced a message, a status "
+                "histories against the real proxy.Manager and its Wrappers; configurations are Complete()d and are either one of 17 "
+                "hand-picked ones or a field vector (one digit per field of v1.ProxyBaseConfig - useEncryption, useCompression, "
+                "bandwidthLimit, bandwidthLimitMode, proxyProtocolVersion, metadatas, annotations, load balancer group / key, "
+                "health check, localIP, localPort, plugin - and of the type's own struct, for tcp / http / https / stcp / tcpmux); one "
+                "class of reloads brings a proxy to status running and then changes exactly ONE digit of it (or none); every "
+                "NewProxy the transporter sees is compared with the message marshalled from the configured entry (X<name> otherwise); "
+                "non-trivial = the op produced a message, a status "
                 "change, a hand-over or hit a stopped wrapper; for `race` (two overlapping operations, the first one held in the "
-                "transporter at the hand-over of its NewProxy/CloseProxy) non-trivial = a message was actually held; "
-                "distinct = distinct (op line, result) pairs",
+                "transporter at the hand-over of its NewProxy/CloseProxy) non-trivial = a message was actually held. "
+                "vmgr engine: reload / squat / free / tick / Close / TransferConn histories against the real visitor.Manager with "
+                "real stcp / xtcp / sudp visitors binding 5 loopback addresses (tcp and udp, two IPs) which the harness takes and "
+                "releases; visitor configurations are field vectors over every field of VisitorBaseConfig and XTCPVisitorConfig, "
+                "reloads add / remove / reorder / duplicate / change exactly one field, often of an entry whose Run() failed at "
+                "load; every op ends after a complete pass of the real keep-alive loop; non-trivial = something is configured. "
+                "svc engine: whole service lives (start from a configuration file, reloads through PUT /api/config + GET "
+                "/api/reload - also of a file that does not parse -, GET /api/status after every op, GET /api/config, POST "
+                "/api/stop) against an in-process scripted "
+                "server that drops the session and accepts, refuses or holds the next dial, with reloads while connected, while "
+                "a dial hangs and between two attempts; proxies are field vectors (reloads add / remove / reorder / duplicate / "
+                "change exactly one field), up to three stcp visitors bind real loopback ports which are probed after every op; "
+                "non-trivial = a message reached the server or wrappers wait on a dead "
+                "session; distinct = distinct (op line, result) pairs",
         "trusted": COMMON_TRUST + [
-            "models Frp/Model/Health.lean, Wrapper.lean, WrapperConc.lean, Reconcile.lean written by hand; tied by the engines health "
-            "(real health.Monitor + scripted HTTP/TCP backend) and client (real proxy.Manager/Wrapper/visitor.Manager, "
-            "capturing MessageTransporter)",
+            "models Frp/Model/Health.lean, Wrapper.lean, WrapperConc.lean, Reconcile.lean, VisitorMgr.lean written by hand (Rereg.lean is "
+            "C14's, used read-only); tied by the engines health "
+            "(real health.Monitor + scripted HTTP/TCP backend), client (real proxy.Manager/Wrapper, "
+            "capturing MessageTransporter), vmgr (real visitor.Manager + real visitors + real sockets) and svc (real "
+            "client.Service + admin API + scripted server behind ServiceOptions.ConnectorCreator)",
+            "the `variant` of a configuration in the models is an injective code of its field values, built and decoded by "
+            "the harness (eng_client_fields.go, eng_vmgr.go: canonical = fields a type does not have are 0)",
+            "vmgr: visitor.Manager.checkInterval (10 s, no setter) is overwritten once through reflect/unsafe right after "
+            "NewManager; vm.mu and vm.visitors are read the same way (object identity of visitors); a pass of the keep-alive "
+            "loop is observed through a permanently failing sentinel visitor (its plugin creator counts) that the harness adds "
+            "to every list, so the loop is always running",
+            "svc: Service.ctl is read through reflect/unsafe (under ctlMu) to see that loginFunc has installed the new control; "
+            "quiescence = every wrapper has left status new (and wait start on a live session), every Dispatcher.sendLoop is "
+            "parked (runtime.Stack), the scripted server has recorded every byte the client wrote and the client has taken "
+            "every reply; the `early` parameter of Rereg is read from the source by translate/gen_sessfacts.go on every run",
             "verif hooks client/proxy/verif_export.go, client/health/verif_export.go, client/visitor/verif_export.go "
             "(timing setters, one-iteration wake-up of the wrapper worker through its own notify channel, health callbacks, dumps)",
         ],
@@ -139,18 +258,36 @@ PROP = {
             "NewProxy/CloseProxy of an operation just before it is on the wire while a second operation runs until it has "
             "finished or its goroutine is blocked (runtime.Stack); other preemption points (between Lock() and the phase test, "
             "between two statements that do not call the handler) are not driven, InWorkConn/GetStatus are not in the small-step model",
-            "visitor reload is compared against a small model in the engine (configured / running names) without theorems; "
-            "visitor.Manager.UpdateAll still starts the first and compares with the last entry of a duplicated visitor name",
+            "visitor.Manager.UpdateAll still starts the FIRST and compares with the LAST entry of a duplicated visitor name "
+            "(proxy_manager.go was repaired by eab68f8, visitor_manager.go was not): the model is faithful, "
+            "vm_dup_restart_witness shows the restart on every identical reload, vm_reload_idempotent is stated for lists "
+            "without duplicated names; the engine compares such reloads with the model and evaluates only the clauses about "
+            "names and membership on them",
+            "vmgr: which of several waiting visitors gets an address that became free is Go's map order; the engine starts "
+            "the ones the implementation reports first (the model refuses those that cannot start) and then completes the pass; "
+            "a pass that runs after Close (stopCh and the ticker both ready) is allowed the same way; the states between two "
+            "passes of the loop are covered by the theorems (every tryStart / squat / free interleaving), the engine observes "
+            "pass-stable states only",
+            "svc: visitors at service level are observed only through their bind ports, with distinct names and ports, and "
+            "during an outage the generated reloads only remove visitors (a visitor the dead control starts during the outage "
+            "holds its address until the swap, the new manager then waits for its next keep-alive pass, checkInterval = 10 s: "
+            "convergence there is the vmgr engine's and the theorems' subject); proxies there are plain (no health check, no failing plugin), the "
+            "server answers every NewProxy with success; the window between ctl.Run and svr.ctl = ctl is never scheduled "
+            "(C14 reload_in_window_witness)",
         ],
     }
 
 META = {
-        "engine": "lean+harness(health,client)",
+        "engine": "lean+harness(health,client,vmgr,svc)",
         "design_ref": "DESIGN.md §6 C19, §7 item 8",
-        "technique": "Lean 4 models of health counting, wrapper phase machine (atomic and small-step with pw.mu) and reload diff; "
-                     "theorems by induction over all probe histories / event sequences / reloads / goroutine schedules; differential "
-                     "correspondence with the real health.Monitor and proxy.Manager/Wrapper, including overlapping operations with a "
-                     "message held in the transporter; property predicates evaluated on the implementation's answers",
+        "technique": "Lean 4 models of health counting, wrapper phase machine (atomic and small-step with pw.mu), reload diff, visitor "
+                     "manager with its keep-alive loop and bind addresses, and (C14's) service re-login; "
+                     "theorems by induction over all probe histories / event sequences / reloads / goroutine schedules / keep-alive "
+                     "iterations / session histories; differential "
+                     "correspondence with the real health.Monitor, proxy.Manager/Wrapper (overlapping operations with a "
+                     "message held in the transporter; configurations as field vectors over every field), visitor.Manager with real "
+                     "visitors and sockets, and client.Service behind its admin API; property predicates evaluated on the "
+                     "implementation's answers",
         "text": "Proof (two findings, both repaired in /repo: 75a9f5a and eab68f8). Health: the pinned monitor never reset failedTimes, so "
                 "withdrawal happened after maxFailed failures in total, not in a row (kernel-checked witness, reproduced on the real "
                 "Monitor before the fix); the machine as it is now (HealthFixed) satisfies the full statement withdraw_iff_consecutive. Wrapper: for every event sequence the status "
@@ -165,10 +302,21 @@ META = {
                 "configured names, unchanged entries keep the same wrapper object with no message, removed/changed ones get exactly "
                 "one CloseProxy, added ones exactly one NewProxy (none if health-gated), every running wrapper carries the configured "
                 "(last) entry of its name, and reloading the loaded configuration is a no-op for EVERY configuration list "
-                "(reload_idempotent). Before fix eab68f8 a name configured twice with different contents was stopped and "
+                "(reload_idempotent); per running proxy: ANY differing field gives exactly one CloseProxy, a new wrapper object and one "
+                "NewProxy carrying the new entry, NO difference gives no message and the same object (reload_changed_restarts, "
+                "reload_unchanged_silent). Visitors: for every history of keep-alive iterations, Run failures and successes, "
+                "addresses taken and released by other programs and Close after a reload, the stored names are the loaded names, every "
+                "stored entry and every visitor's configuration is an entry of the loaded list (a removed visitor is never started "
+                "again, a changed one runs the new entry), unchanged visitors are the same object, changed ones are closed, and a "
+                "complete pass of the loop in any order leaves every entry running or unstartable (vm_history_configured, "
+                "vm_history_running, vm_pass_complete). Re-login: after any history of reloads (connected, during an outage, between "
+                "attempts), session losses and logins a live control runs exactly the LAST loaded configuration and the new session "
+                "receives one NewProxy per configured name (reconnect_runs_last_loaded, relogin_registers_last_loaded; tied to where "
+                "loginFunc reads the configuration by reconnect_code). Before fix eab68f8 a name configured twice with different contents was stopped and "
                 "re-registered on every identical reload (witness reload_dup_witness about updateAllOld, reproduced on the real "
                 "Manager before the fix).",
         "note": "Trusted: Lean kernel; the hand-written models and the correspondence harness. Not covered: real-time behaviour beyond "
-                "two scenarios, TCP probe timeouts, visitor restart loop (keepVisitorsRunning), preemption points of the wrapper other than the "
-                "hand-over of a message to the transporter.",
+                "two scenarios, TCP probe timeouts, preemption points of the wrapper other than the "
+                "hand-over of a message to the transporter, visitors added or changed during an outage at service level, wall-clock period of the "
+                "visitor keep-alive loop (10 s in production, 1.5 ms in the engine).",
     }
